@@ -200,12 +200,14 @@ def run_history(case):
                     c = calls[tgt % len(calls)]
                     serial = c.serial
                 token[0] += 1
+                # (a reply's OWN serial is its sender's business: senders count independently, so consecutive replies may
+                # well carry the same one - here every two do)
                 if kind == 'error':
                     name, bk = op[2], op[3]
                     sig, trees = {'str': ('s', ['msg%d' % token[0]]), 'none': ('', []),
                                   'int': ('i', [token[0]]), 'str+': ('su', ['m%d' % token[0], 9]),
                                   'empty-str': ('s', [''])}[bk]
-                    raw = R.encode_variant(token[0] + serial, 3, 1000 + token[0], _with_sender({4: name, 5: serial}, token[0], rig), sig, trees)
+                    raw = R.encode_variant(token[0] + serial, 3, 1000 + token[0] // 2, _with_sender({4: name, 5: serial}, token[0], rig), sig, trees)
                     outcome = ('remote', name, trees[0] if (trees and isinstance(trees[0], str)) else '',
                                S.normal_forms(sig, trees) if sig else [])
                 else:
@@ -213,7 +215,7 @@ def run_history(case):
                     sig, trees = p['sig'], p['trees']
                     if p.get('token'):
                         sig, trees = 'u' + sig if len(sig) < 250 else 'u', [token[0]] + (trees if len(sig) < 250 else [])
-                    raw = R.encode_variant(token[0] + serial, 2, 1000 + token[0], _with_sender({5: serial}, token[0], rig), sig, trees,
+                    raw = R.encode_variant(token[0] + serial, 2, 1000 + token[0] // 2, _with_sender({5: serial}, token[0], rig), sig, trees,
                                            little=p.get('little', True))
                     outcome = None
                 if kind == 'reply2':
